@@ -36,6 +36,18 @@ Proof.
     match type of E with (if ?c then _ else _) = _ => destruct c; [inversion E; subst; exact A | discriminate] end.
 Qed.
 
+Lemma postfixes_len : forall f lhs ts a r, parse_postfixes tbl tm f lhs ts = Ok (a, r) -> (length r <= length ts)%nat.
+Proof.
+  induction f as [|f IH]; intros lhs ts a r H; cbn [parse_postfixes] in H; [discriminate|].
+  destruct ts as [|t rest]; [inversion H; subst; lia|].
+  destruct t; try (inversion H; subst; lia).
+  destruct (is_postfix tbl s); [|inversion H; subst; lia].
+  destruct (advance tm (TOp s :: rest)) as [ts2| | |] eqn:A; cbn [bind] in H; try discriminate.
+  apply advance_len in A. destruct A as [A _].
+  unfold built in H. destruct (MAX_DEPTH <? ast_height (APostfix lhs s)); cbn [bind] in H; [discriminate|].
+  apply IH in H. lia.
+Qed.
+
 Definition all_len (f : nat) : Prop :=
   (forall d ts a r, parse_expression tbl tm f d ts = Ok (a, r) -> (length r < length ts)%nat) /\
   (forall d ts a r, parse_primary tbl tm f d ts = Ok (a, r) -> (length r < length ts)%nat) /\
@@ -61,6 +73,7 @@ Ltac hyp_step I1 I2 I3 I4 I5 I6 I7 I8 :=
   | H : (if ?c then _ else _) = Ok _ |- _ => destruct c
   | H : advance _ ?ts = Ok ?r |- _ => apply advance_len in H; destruct H as [? ?]
   | H : expect _ ?ts _ = Ok ?r |- _ => apply expect_len in H
+  | H : parse_postfixes _ _ _ _ _ = Ok (_, _) |- _ => apply postfixes_len in H
   | H : _ = Ok (_, _) |- _ =>
       first [ apply I1 in H | apply I2 in H | apply I3 in H | apply I4 in H | apply I5 in H | apply I6 in H | apply I7 in H | apply I8 in H ]
   end.
@@ -123,6 +136,17 @@ Qed.
 Lemma nf_next_prec ts : nf (next_prec tbl tm ts).
 Proof. unfold next_prec. apply nf_bind; [apply nf_peek | intros; discriminate]. Qed.
 
+Lemma nf_postfixes : forall f lhs ts, (length ts + 1 <= f)%nat -> nf (parse_postfixes tbl tm f lhs ts).
+Proof.
+  induction f as [|f IH]; intros lhs ts Hf; [lia|]. cbn [parse_postfixes].
+  destruct ts as [|t rest]; [discriminate|]. destruct t; try discriminate.
+  destruct (is_postfix tbl s); [|discriminate].
+  apply nf_bind; [apply nf_advance|]. intros ts2 A. apply advance_len in A. destruct A as [_ A]. specialize (A ltac:(discriminate)).
+  apply nf_bind; [unfold built; destruct (MAX_DEPTH <? _); discriminate|].
+  intros [e ts3] B. unfold built in B. destruct (MAX_DEPTH <? _); [discriminate|]. inversion B; subst.
+  apply IH. cbn [length] in *. lia.
+Qed.
+
 Definition all_nf (f : nat) : Prop :=
   (forall d ts, (4 * length ts + 4 <= f)%nat -> nf (parse_expression tbl tm f d ts)) /\
   (forall d ts, (4 * length ts + 3 <= f)%nat -> nf (parse_primary tbl tm f d ts)) /\
@@ -137,6 +161,7 @@ Ltac nstep L1 L2 L3 L4 L5 L6 L7 L8 I1 I2 I3 I4 I5 I6 I7 I8 :=
   first [ hyp_step L1 L2 L3 L4 L5 L6 L7 L8 |
   match goal with
   | |- nf (built _ _) => unfold built
+  | |- nf (parse_postfixes _ _ _ _ _) => apply nf_postfixes; repeat (match goal with H : ?l <> [] -> _ |- _ => specialize (H ltac:(discriminate)) end); fin_len
   | |- nf (Ok _) => discriminate
   | |- nf Err => discriminate
   | |- nf (advance _ _) => apply nf_advance
